@@ -89,7 +89,13 @@ impl AuthorHeads {
             }
         }
         let encoded = postcard::to_stdvec(&items)?;
-        debug_assert!(size_limit.map(|s| encoded.len() <= s).unwrap_or(true));
+        if let Some(size_limit) = size_limit {
+            // even the encoding of an empty list needs one byte
+            anyhow::ensure!(
+                encoded.len() <= size_limit,
+                "size limit too small to encode author heads"
+            );
+        }
         Ok(encoded)
     }
 
